@@ -403,5 +403,177 @@ theorem op2Over_ok (s : St μ ι) (h : 0 ≤ s.f.runLimit) : OpOK M 2 s (op2Over
     (fun a s1 hs => applyCost_mono M 2 (by omega) s a s1 hs) (fun _ s1 _ h1 => h2 s1 h1)
   simpa [op2Over] using this
 
+/-! ### CHECKMULTISIG -/
+
+/-- `OpOK` plus: a successful run does not raise the potential -/
+def OpMono {α : Type} (k : Int) (s : St μ ι) (r : Res (St μ ι) α) : Prop :=
+  OpOK M k s r ∧ ∀ a s1, r = .ok a s1 → frameA M s1.f ≤ frameA M s.f
+
+theorem OpMono_bind {α β : Type} (m : OpM (St μ ι) α) (f : α → OpM (St μ ι) β) (s : St μ ι) (k1 k2 : Int)
+    (h1 : OpMono M k1 s (m s))
+    (h2 : ∀ a s1, m s = .ok a s1 → 0 ≤ s1.f.runLimit → OpMono M k2 s1 (f a s1)) :
+    OpMono M (k1 + k2) s ((m >>= f) s) := by
+  constructor
+  · exact OpOK_bind M m f s k1 k2 h1.1 h1.2 (fun a s1 hs hr => (h2 a s1 hs hr).1)
+  · intro b s2 hb
+    rw [bind_run] at hb
+    cases hm : m s with
+    | panic => rw [hm] at hb; simp at hb
+    | err e s1 => rw [hm] at hb; simp at hb
+    | ok a s1 =>
+      rw [hm] at hb; simp only [Res.bindK_ok] at hb
+      have ha := h1.2 a s1 hm
+      have hr : 0 ≤ s1.f.runLimit := by
+        have := h1.1; rw [hm] at this; exact this.2.1
+      have := (h2 a s1 hm hr).2 b s2 hb
+      omega
+
+theorem OpMono_popBytes (s : St μ ι) (h : 0 ≤ s.f.runLimit) : OpMono M 0 s (popBytes M true s) := by
+  obtain ⟨mem, ⟨prog, pc, nextPC, rl, d, data, alt, depth, er⟩⟩ := s
+  dsimp only at h
+  rcases data with _ | ⟨x, rest⟩
+  · constructor
+    · vm_gas []
+    · intro a s1 hs; simp [popBytes, bind_run] at hs
+  · constructor
+    · vm_gas []
+    · intro a s1 hs
+      simp [popBytes, bind_run] at hs
+      obtain ⟨_, rfl⟩ := hs; simp [frameA, stackCost, itemCost]; omega
+
+theorem OpMono_popInt64 (s : St μ ι) (h : 0 ≤ s.f.runLimit) : OpMono M 0 s (popInt64 M true s) := by
+  obtain ⟨mem, ⟨prog, pc, nextPC, rl, d, data, alt, depth, er⟩⟩ := s
+  dsimp only at h
+  rcases data with _ | ⟨x, rest⟩
+  · constructor
+    · vm_gas []
+    · intro a s1 hs; simp [popInt64, popBigInt, popBytes, bind_run] at hs
+  · constructor
+    · vm_gas []
+    · intro a s1 hs
+      simp [popInt64, popBigInt, popBytes, bind_run] at hs
+      cases hx : asBigInt (M.read mem x) with
+      | error e => rw [hx] at hs; simp at hs
+      | ok n =>
+        rw [hx] at hs; simp at hs
+        cases hy : bigIntInt64 n with
+        | error e => rw [hy] at hs; simp at hs
+        | ok v => rw [hy] at hs; simp at hs; obtain ⟨_, rfl⟩ := hs; simp [frameA, stackCost, itemCost]; omega
+
+theorem OpMono_popN (k : Nat) (s : St μ ι) (h : 0 ≤ s.f.runLimit) : OpMono M 0 s (popN M k s) := by
+  induction k generalizing s with
+  | zero =>
+    obtain ⟨mem, ⟨prog, pc, nextPC, rl, d, data, alt, depth, er⟩⟩ := s
+    dsimp only at h
+    constructor
+    · simp [popN, OpOK, SameCtl]; exact h
+    · intro a s1 hs; simp [popN] at hs; obtain ⟨_, rfl⟩ := hs; simp
+  | succ k ih =>
+    have h2 : ∀ (x : Bytes) (s1 : St μ ι), 0 ≤ s1.f.runLimit →
+        OpMono M 0 s1 ((popN M k >>= fun xs => pure (x :: xs)) s1) := by
+      intro x s1 h1
+      have := OpMono_bind M (popN M k) (fun xs => pure (x :: xs)) s1 0 0 (ih s1 h1)
+        (fun a s2 _ hr => by
+          constructor
+          · obtain ⟨mem, ⟨prog, pc, nextPC, rl, d, data, alt, depth, er⟩⟩ := s2
+            simp [OpOK, SameCtl]; exact hr
+          · intro b s3 hb; simp at hb; obtain ⟨_, rfl⟩ := hb; simp)
+      simpa using this
+    have := OpMono_bind M (popBytes M true) (fun x => popN M k >>= fun xs => pure (x :: xs)) s 0 0
+      (OpMono_popBytes M s h) (fun x s1 _ hr => h2 x s1 hr)
+    simpa [popN] using this
+
+theorem OpMono_applyCost (n : Int) (hn : 0 ≤ n) (s : St μ ι) (h : 0 ≤ s.f.runLimit) :
+    OpMono M n s (applyCost n s) :=
+  ⟨applyCost_ok M n hn s h, fun a s1 hs => applyCost_mono M n hn s a s1 hs⟩
+
+theorem OpOK_throwE {α : Type} (e : Err) (s : St μ ι) (h : 0 ≤ s.f.runLimit) :
+    OpOK M 0 s ((throwE e : OpM (St μ ι) α) s) := by
+  obtain ⟨mem, ⟨prog, pc, nextPC, rl, d, data, alt, depth, er⟩⟩ := s
+  simp [OpOK, SameCtl]; exact h
+
+theorem pushBool_def_ok (b : Bool) (s : St μ ι) (h : 0 ≤ s.f.runLimit) : OpOK M 0 s (pushBool M b true s) := by
+  obtain ⟨mem, ⟨prog, pc, nextPC, rl, d, data, alt, depth, er⟩⟩ := s
+  dsimp only at h
+  vm_gas []
+
+theorem cmsTail2_ok (np ns : Int) (s : St μ ι) (h : 0 ≤ s.f.runLimit) :
+    OpOK M 0 s (cmsTail2 M ctx np ns s) := by
+  unfold cmsTail2
+  have hfin : ∀ (pubkeys sigs : List Bytes) (msg : Bytes) (s3 : St μ ι), 0 ≤ s3.f.runLimit →
+      OpOK M 0 s3 ((if pubkeys.any (fun p => p.length != 32) then pushBool M false true
+        else pushBool M (matchSigs (fun p s => ctx.verifySig p msg s) sigs pubkeys) true) s3) := by
+    intro pubkeys sigs msg s3 h3
+    rw [opm_ite_apply]
+    split
+    · exact pushBool_def_ok M _ s3 h3
+    · exact pushBool_def_ok M _ s3 h3
+  have hsigs : ∀ (pubkeys : List Bytes) (msg : Bytes) (s2 : St μ ι), 0 ≤ s2.f.runLimit →
+      OpOK M 0 s2 ((popN M ns.toNat >>= fun sigs =>
+        if pubkeys.any (fun p => p.length != 32) then pushBool M false true
+        else pushBool M (matchSigs (fun p s => ctx.verifySig p msg s) sigs pubkeys) true) s2) := by
+    intro pubkeys msg s2 h2
+    have := OpOK_bind M (popN M ns.toNat) _ s2 0 0 (OpMono_popN M _ s2 h2).1 (OpMono_popN M _ s2 h2).2
+      (fun sigs s3 _ h3 => hfin pubkeys sigs msg s3 h3)
+    simpa using this
+  have hmsg : ∀ (pubkeys : List Bytes) (s1 : St μ ι), 0 ≤ s1.f.runLimit →
+      OpOK M 0 s1 ((popBytes M true >>= fun msg =>
+        if msg.length ≠ 32 then throwE .badValue else
+        popN M ns.toNat >>= fun sigs =>
+        if pubkeys.any (fun p => p.length != 32) then pushBool M false true
+        else pushBool M (matchSigs (fun p s => ctx.verifySig p msg s) sigs pubkeys) true) s1) := by
+    intro pubkeys s1 h1
+    have := OpOK_bind M (popBytes M true) (fun msg =>
+        if msg.length ≠ 32 then throwE .badValue else
+        popN M ns.toNat >>= fun sigs =>
+        if pubkeys.any (fun p => p.length != 32) then pushBool M false true
+        else pushBool M (matchSigs (fun p s => ctx.verifySig p msg s) sigs pubkeys) true)
+      s1 0 0 (OpMono_popBytes M s1 h1).1 (OpMono_popBytes M s1 h1).2
+      (fun msg s2 _ h2 => by
+        rw [opm_ite_apply]
+        split
+        · exact OpOK_throwE M _ s2 h2
+        · exact hsigs pubkeys msg s2 h2)
+    simpa using this
+  have := OpOK_bind M (popN M np.toNat) _ s 0 0 (OpMono_popN M _ s h).1 (OpMono_popN M _ s h).2
+    (fun pubkeys s1 _ h1 => hmsg pubkeys s1 h1)
+  simpa using this
+
+theorem cmsTail1_ok (np : Int) (hnp : 0 ≤ np) (s : St μ ι) (h : 0 ≤ s.f.runLimit) :
+    OpOK M (np * 1024) s (cmsTail1 M ctx np s) := by
+  unfold cmsTail1
+  have h2 : ∀ s1 : St μ ι, 0 ≤ s1.f.runLimit → OpOK M 0 s1 ((popInt64 M true >>= fun numSigs =>
+      if numSigs < 0 ∨ numSigs > np ∨ (np > 0 ∧ numSigs = 0) then throwE .badValue
+      else cmsTail2 M ctx np numSigs) s1) := by
+    intro s1 h1
+    have := OpOK_bind M (popInt64 M true) (fun numSigs =>
+        if numSigs < 0 ∨ numSigs > np ∨ (np > 0 ∧ numSigs = 0) then throwE .badValue
+        else cmsTail2 M ctx np numSigs) s1 0 0 (OpMono_popInt64 M s1 h1).1 (OpMono_popInt64 M s1 h1).2
+      (fun ns s2 _ h2 => by
+        rw [opm_ite_apply]
+        split
+        · exact OpOK_throwE M _ s2 h2
+        · exact cmsTail2_ok M ctx np ns s2 h2)
+    simpa using this
+  have := OpOK_bind M (applyCost (np * 1024)) _ s (np * 1024) 0 (applyCost_ok M _ (by omega) s h)
+    (fun a s1 hs => applyCost_mono M _ (by omega) s a s1 hs) (fun _ s1 _ h1 => h2 s1 h1)
+  simpa using this
+
+/-- CHECKMULTISIG costs `1024 · numPubkeys`: nothing at all when the key count is zero (F5) -/
+theorem opCheckMultiSig_ok (s : St μ ι) (h : 0 ≤ s.f.runLimit) : OpOK M 0 s (opCheckMultiSig M ctx s) := by
+  unfold opCheckMultiSig
+  have := OpOK_bind M (popInt64 M true)
+    (fun np => if np < 0 ∨ np * 1024 > maxInt64 then throwE .badValue else cmsTail1 M ctx np)
+    s 0 0 (OpMono_popInt64 M s h).1 (OpMono_popInt64 M s h).2
+    (fun np s1 hs h1 => by
+      show OpOK M 0 s1 ((if np < 0 ∨ np * 1024 > maxInt64 then throwE .badValue else cmsTail1 M ctx np) s1)
+      rw [opm_ite_apply]
+      split
+      · exact OpOK_throwE M _ s1 h1
+      · rename_i hc
+        have hnp : 0 ≤ np := by omega
+        exact OpOK_mono M (np * 1024) 0 (by omega) s1 _ (cmsTail1_ok M ctx np hnp s1 h1))
+  simpa using this
+
 end
 end BytomModel.VM
